@@ -2,14 +2,14 @@ package main
 
 // Stream `recovery` (property C15). Two kinds of cases (one item per case):
 //
-//	recovery \t P \t <value> \t <progress N|H|B|F|S|R> \t <scope route|mw|noroute> \t <namehex=valuehex,…|->
+//	recovery \t P \t <value> \t <progress N|H|B|F|S|R> \t <scope route|mw|noroute|routets|routehost|nomethod|options|redirect> \t <namehex=valuehex,…|->
 //	    a handler (route handler / inner middleware / no-route handler) behind the Recovery middleware sends nothing /
 //	    a 202 header / header + partial body / a flush only (F) / WriteString (S) / ReadFrom (R) and panics with <value>; the request carries the given headers (set
 //	    directly in the map, so non-canonical names survive).
 //	    value: error wabort abort str nil custom opsys:<hex> opplain:<hex> wrapop:<hex>
-//	recovery \t T \t <updates|view|handle|update> \t <value> \t <n ops> \t <p<k> | e<k> | ok>
+//	recovery \t T \t <updates|view|handle|update> \t <value> \t <n ops> \t <p<k> | e<k> | g<k> | ok>
 //	    a managed transaction function performing n effective operations that panics after k of them (p<k>), returns
-//	    an error after k of them (e<k>) or completes (ok); `handle` / `update` = the single-operation helper with a
+//	    an error after k of them (e<k>), ends its goroutine with runtime.Goexit after k of them (g<k>) or completes (ok); `handle` / `update` = the single-operation helper with a
 //	    middleware that panics while the route is built.
 //
 // Observation: did the call return or re-panic (same value?), what reached the client, the captured slog record
@@ -217,6 +217,7 @@ func runRecovery(fields []string) string {
 	var f *fox.Router
 	var err error
 	path := "/r/42"
+	method := http.MethodGet
 	switch scope {
 	case "route":
 		f, err = fox.New(fox.WithMiddleware(recov))
@@ -251,6 +252,31 @@ func runRecovery(fields []string) string {
 	case "noroute":
 		path = "/nowhere/42"
 		f, err = fox.New(fox.WithNoRouteHandler(doPanic), fox.WithMiddleware(recov))
+	case "nomethod":
+		// the 405 handler panics (the path is registered for POST only)
+		f, err = fox.New(fox.WithNoMethod(true), fox.WithNoMethodHandler(doPanic), fox.WithMiddleware(recov))
+		if err == nil {
+			_, err = f.Handle(http.MethodPost, "/r/{id}", okHandler)
+		}
+	case "options":
+		// the automatic OPTIONS handler panics
+		method = http.MethodOptions
+		f, err = fox.New(fox.WithAutoOptions(true), fox.WithOptionsHandler(doPanic), fox.WithMiddleware(recov))
+		if err == nil {
+			_, err = f.Handle(http.MethodGet, "/r/{id}", okHandler)
+		}
+	case "redirect":
+		// a middleware scoped to the trailing-slash redirect handler panics
+		inner := func(next fox.HandlerFunc) fox.HandlerFunc {
+			return func(c fox.Context) {
+				doPanic(c)
+				next(c)
+			}
+		}
+		f, err = fox.New(fox.WithRedirectTrailingSlash(true), fox.WithMiddleware(recov), fox.WithMiddlewareFor(fox.RedirectHandler, inner))
+		if err == nil {
+			_, err = f.Handle(http.MethodGet, "/r/{id}/", okHandler)
+		}
 	default:
 		return "I=bad-scope"
 	}
@@ -261,7 +287,7 @@ func runRecovery(fields []string) string {
 		return "I=setup-error\tO=setup failed: " + err.Error()
 	}
 	before := fox.VerifDumpRouter(f)
-	req := newReq(http.MethodGet, "example.com", path)
+	req := newReq(method, "example.com", path)
 	for _, h := range hdrs {
 		req.Header[h.name] = []string{h.value}
 	}
@@ -311,7 +337,7 @@ func runRecovery(fields []string) string {
 				red = append(red, hx(name))
 			}
 		}
-		if strings.Contains(msg, "GET "+path+" HTTP/1.1") {
+		if strings.Contains(msg, method+" "+path+" HTTP/1.1") {
 			reqline = "1"
 		}
 		route = hx(lh.route)
@@ -376,6 +402,11 @@ func runRecoveryTxn(fields []string) string {
 			if k == stopAt {
 				if mode == "p" {
 					panic(val)
+				}
+				if mode == "g" {
+					// the goroutine is terminated from inside the callback (what t.FailNow / require.* do): the deferred
+					// calls run, nothing is recovered, nothing is returned
+					runtime.Goexit()
 				}
 				return errTxnStop
 			}
@@ -450,7 +481,7 @@ func runRecoveryTxn(fields []string) string {
 	}
 	panicMw := func(next fox.HandlerFunc) fox.HandlerFunc { panic(val) }
 	out := "returned"
-	func() {
+	call := func() {
 		defer func() {
 			if p := recover(); p != nil {
 				if recSame(val, p) {
@@ -460,6 +491,9 @@ func runRecoveryTxn(fields []string) string {
 				}
 			}
 		}()
+		if mode == "g" {
+			out = "goexit" // overwritten when the call comes back
+		}
 		var err error
 		switch kind {
 		case "updates", "updates-t1", "updates-t2", "updates-t3", "updates-s", "updates-u":
@@ -471,6 +505,9 @@ func runRecoveryTxn(fields []string) string {
 		case "update":
 			_, err = f.Update(http.MethodGet, "/seed/a", okHandler, fox.WithMiddleware(panicMw))
 		}
+		if mode == "g" {
+			out = "returned"
+		}
 		if err != nil {
 			if errors.Is(err, errTxnStop) {
 				out = "error"
@@ -478,7 +515,17 @@ func runRecoveryTxn(fields []string) string {
 				out = "error:" + err.Error()
 			}
 		}
-	}()
+	}
+	if mode == "g" {
+		done := make(chan struct{})
+		go func() {
+			defer close(done)
+			call()
+		}()
+		<-done
+	} else {
+		call()
+	}
 	fu := recFollowUps(f, before)
 	res := "out=" + out + "," + fu
 	return "I=" + res + "\tJ=" + res
@@ -552,7 +599,7 @@ func genRecovery(r *Rng, tier string, n int, emit func(string)) {
 	k := 0
 	for _, v := range recValues {
 		for _, p := range []string{"N", "H", "B", "F", "S", "R"} {
-			for _, s := range []string{"route", "mw", "noroute", "routets", "routehost"} {
+			for _, s := range []string{"route", "mw", "noroute", "routets", "routehost", "nomethod", "options", "redirect"} {
 				if emitted >= n*2/3 {
 					break
 				}
@@ -576,7 +623,8 @@ func genRecovery(r *Rng, tier string, n int, emit func(string)) {
 			for pos := 0; pos <= nops; pos++ {
 				emit(fmt.Sprintf("recovery\tT\t%s\t%s\t%d\tp%d", kind, Pick(r, recValues), nops, pos))
 				emit(fmt.Sprintf("recovery\tT\t%s\terror\t%d\te%d", kind, nops, pos))
-				emitted += 2
+				emit(fmt.Sprintf("recovery\tT\t%s\terror\t%d\tg%d", kind, nops, pos))
+				emitted += 3
 			}
 			emit(fmt.Sprintf("recovery\tT\t%s\terror\t%d\tok", kind, nops))
 			emitted++
@@ -591,7 +639,7 @@ func genRecovery(r *Rng, tier string, n int, emit func(string)) {
 	for emitted < n {
 		k++
 		emit("recovery\tP\t" + Pick(r, recValues) + "\t" + Pick(r, []string{"N", "H", "B", "F", "S", "R"}) + "\t" +
-			Pick(r, []string{"route", "mw", "noroute", "routets", "routehost"}) + "\t" + recHeaders(r, k))
+			Pick(r, []string{"route", "mw", "noroute", "routets", "routehost", "nomethod", "options", "redirect"}) + "\t" + recHeaders(r, k))
 		emitted++
 	}
 }
